@@ -24,13 +24,6 @@ func (d *zzProofDB) Get(k []byte) ([]byte, error) {
 	return nil, nil
 }
 
-func zzKeyLen(kl int) int {
-	if zzBound("VARLEN") != 0 {
-		return 1 + zzChoice(kl)
-	}
-	return kl
-}
-
 // The proof a trie produces for a key (present or absent) verifies to the trie's value; with
 // one genuine node left out, verification fails or still returns the true value.
 func zzH_C08_prove_verify() {
